@@ -190,6 +190,10 @@ def explore(eng: Engine, acc, monitor: Monitor, heuristics=("min",), max_states=
             ctr["transitions"] += 1
             monitor.after_backtrack(eng, acc, after, ok)
             result = visit(depth + 1) if ok else ()
+        elif int(eng.top[0]) + 2 >= len(eng.stack):
+            # solve_one refuses to branch when fewer than two levels are left (RuntimeError): the execution ends here
+            ctr["refused"] = ctr.get("refused", 0) + 1
+            result = ()
         else:
             results = {}
             for d in (eng.open_decisions() if orders == "all" else eng.open_decisions()[:1]):
@@ -204,7 +208,7 @@ def explore(eng: Engine, acc, monitor: Monitor, heuristics=("min",), max_states=
                 result = ()
             else:
                 vals = set(results.values())
-                if len(vals) > 1 and not ctr["capped"]:
+                if len(vals) > 1 and not ctr["capped"] and not ctr.get("refused"):
                     items = sorted(results.items(), key=lambda kv: len(kv[1]))
                     acc.violation("engine:solutions-depend-on-variable-or-value-order",
                                   {"spec": eng.spec, "at_domains": [list(x) for x in _doms_of(after)],
